@@ -278,7 +278,13 @@ func c03One(s *scenario, run int, derived uint64) {
 	fail := func(why string) {
 		s.emit(head+" msgs=0 bytes=0 ok=false "+tail, "setup-failed:"+token(why, 80))
 	}
-	srv, addr, why := startServer(mpx.HandleFunc(rn.handle), lg, opts)
+	// compression is what the handshake negotiated (the client offers, the server picks from the offer):
+	// the server's own setting differs from the client's in half of the runs
+	sopts := opts
+	if derived>>9&1 == 1 {
+		sopts.Compression = !opts.Compression
+	}
+	srv, addr, why := startServer(mpx.HandleFunc(rn.handle), lg, sopts)
 	if why != "" {
 		fail(why)
 		return
